@@ -97,11 +97,11 @@ CLAIMS["C11"] = ("exploration", "6.C11",
     "solvers' string fragments; the structural half (import completeness, TypedDict replacement) is not under L1 contracts yet.",
     TRUST + "bounded only; two recorded known findings (same class name from two modules; field types of generated TypedDict classes not imported).")
 
-CLAIMS["C16"] = ("exploration", "6.C16",
-    "Bounded: real apply_stub_using_libcst(..., confine=True) over source shapes (imports at top / after docstrings / after __future__ / inside functions / inside an existing TYPE_CHECKING block, "
-    "import a.b, aliases, star imports) x stubs (new user modules, typing names, names the source already imports, mypy_extensions.TypedDict): first statement, placement of every import on the AST, "
-    "and the result executed in a fresh namespace. The transformer's own contracts (a name is removed only if the ImportItem it denotes is in the move list) are not under L1 yet.",
-    TRUST + "libcst node API and AddImportsVisitor are dependencies; bounded only.")
+CLAIMS["C16"] = ("proof", "6.C16",
+    "RemoveImportsTransformer.leave_Import / leave_ImportFrom are proved (nested loop invariants) to remove a name only if the ImportItem it denotes (module, object, alias) is in the move list, "
+    "to invent nothing, to leave star imports untouched and to remove a statement iff all its names moved; _remove_typing_module is proved never to confine typing or mypy_extensions items "
+    "(what generated code needs at import time). Bounded companion on real libcst: source shapes x stubs, placement of every import on the AST, first statement, result executed in a fresh namespace.",
+    TRUST + "T-CST (libcst node API: names, evaluated_name / evaluated_alias, with_changes, RemoveFromParent), AddImportsVisitor / __future__ insertion and get_newly_imported_items are bounded only.")
 CLAIMS["C15"] = ("exploration", "6.C15",
     "Bounded stand-in (the substance of C15 is libcst's ApplyTypeAnnotationsVisitor, a dependency of several thousand lines outside any VC generator available here; assuming its contract would assume "
     "the property): run-time contract erase(parse(result)) == erase(parse(source)), existing annotations unchanged unless overwrite, stub annotations present, idempotence, on the real function over "
